@@ -16,7 +16,7 @@ from vlib.run import Result
 LEVEL = "fault_enumeration"
 RULE = (
     "sequences of well-formed frames over the alphabet {DATA(frmNum 0..7 x reTx 0/1 x ackNum in {0,5}), "
-    "ACK(0), ACK(3), NAK(0), NAK(3), RST, RSTACK(0x0B/0x02/0x55), ERROR(0x51/0x80)} = 42 symbols: every "
+    "ACK(0), ACK(3), NAK(0), NAK(3), RST, RSTACK(0x0B/0x02/0x55), ERROR(0x51/0x80)} plus the host's own reset request (writes RST, changes nothing else) = 43 symbols: every "
     "sequence of length L (quick 2, thorough 3) from each of the 8 expected-number start states, plus "
     "Hypothesis-generated sequences of 50..400 frames biased toward in-sequence frames so the counter wraps "
     "many times. Non-trivial = at least one DATA accepted and at least one refused in the sequence; "
@@ -29,8 +29,11 @@ SYMS = (
     + [("A", 0), ("A", 3), ("N", 0), ("N", 3), ("R",)]
     + [("K", c) for c in (0x0B, 0x02, 0x55)]
     + [("E", c) for c in (0x51, 0x80)]
+    # not a frame: the host's own upper layer asks for a reset (writes RST); the receiver's expected number and what it
+    # hands up must not move until the peer's RSTACK arrives
+    + [("H",)]
 )
-assert len(SYMS) == 42
+assert len(SYMS) == 43
 
 
 def encode(sym, idx):
@@ -65,8 +68,20 @@ def check(plan) -> Result:
     acc = ref = wraps = 0
     for sym in seq:
         idx += 1
-        data, payload = encode(sym, idx)
         w0, e0 = len(tr.writes), len(up.events)
+        if sym[0] == "H":
+            try:
+                proto.send_reset()
+            except Exception as e:
+                r.bad("C04:raises", f"send_reset at {idx}: {e!r}")
+                return r
+            got = b"".join(d for _, d in tr.writes[w0:])
+            if got != bytes.fromhex("1ac038bc7e") or up.events[e0:]:
+                r.bad("C04:host-reset-request-side-effects", f"step {idx}: wrote {got.hex()}, upward {up.events[e0:]}")
+                return r
+            r.cls("host-reset-request-midstream")
+            continue
+        data, payload = encode(sym, idx)
         try:
             proto.data_received(data)
         except Exception as e:
@@ -133,7 +148,7 @@ def replay(plan) -> Result:
 def _worker(ctx, job):
     start, L, firsts = job
     for first in firsts:
-        for rest in itertools.product(range(42), repeat=L - 1):
+        for rest in itertools.product(range(len(SYMS)), repeat=L - 1):
             seq = [list(SYMS[first])] + [list(SYMS[i]) for i in rest]
             plan = {"start": start, "seq": seq}
             ctx.check(plan, check(plan), sample=(first == 5 and rest and rest[0] == 33))
@@ -145,7 +160,7 @@ def long_seq(draw):
     start = draw(st.integers(0, 7))
     exp = start
     seq = []
-    choice = draw(st.lists(st.tuples(st.integers(0, 99), st.integers(0, 41), st.integers(0, 3)), min_size=n, max_size=n))
+    choice = draw(st.lists(st.tuples(st.integers(0, 99), st.integers(0, len(SYMS) - 1), st.integers(0, 3)), min_size=n, max_size=n))
     for p, j, v in choice:
         if p < 70:
             sym = ("D", exp, v & 1, 5 if v & 2 else 0)
@@ -167,7 +182,7 @@ def run(ctx):
     jobs = []
     for start in range(8):
         for part in range(2 if quick else 6):
-            firsts = list(range(42))[part::(2 if quick else 6)]
+            firsts = list(range(len(SYMS)))[part::(2 if quick else 6)]
             jobs.append((start, L, firsts))
     ctx.parallel(_worker, jobs)
     ctx.exhaustive[f"all sequences of length {L} from 8 start states"] = True
